@@ -14,9 +14,10 @@ if [ -z "$res" ]; then
   ( cd "$wt" && go test -vet=off -count=1 ./... ) >/tmp/seedtest.log 2>&1 || res="$res pinned-suite-fails"
   demo=$(ls "$seed"/demo*_test.go 2>/dev/null | head -1)
   if [ -n "$demo" ]; then
-    cp "$demo" "$wt/zz_seed_demo_test.go"
-    ( cd "$wt" && go test -vet=off -count=1 -run TestSeedDemo . ) >/tmp/seeddemo_with.log 2>&1 && res="$res demo-passes-WITH-change"
-    ( cd "$wt" && git checkout -- . && go test -vet=off -count=1 -run TestSeedDemo . ) >/tmp/seeddemo_without.log 2>&1 || res="$res demo-fails-WITHOUT-change"
+    dd="${DEMO_DIR:-.}"
+    cp "$demo" "$wt/$dd/zz_seed_demo_test.go"
+    ( cd "$wt" && go test -vet=off -count=1 -run TestSeedDemo "./$dd" ) >/tmp/seeddemo_with.log 2>&1 && res="$res demo-passes-WITH-change"
+    ( cd "$wt" && git checkout -- . && go test -vet=off -count=1 -run TestSeedDemo "./$dd" ) >/tmp/seeddemo_without.log 2>&1 || res="$res demo-fails-WITHOUT-change"
   else
     res="$res no-demo"
   fi
